@@ -272,6 +272,18 @@ def main(tier, replay=None):
             corpus.append(q)
     for p in corpus:
         run_params(p, rep)
+    # finite grid, enumerated completely: every small shape x both host-configuration modes x 3 seeds
+    grid = 0
+    for H in range(3, 9 if tier == "quick" else 13):
+        for S in (1, 2, 3):
+            for O in (1, 2, 3):
+                for P in (1, 2):
+                    for uniform in (False, True):
+                        for sd in (0, 1, 2):
+                            run_params(dict(num_hosts=H, num_services=S, num_os=O, num_processes=P, uniform=uniform,
+                                            restrictiveness=1 + (H + S + O) % 3, seed=sd), rep)
+                            grid += 1
+    rep.extra["exhaustive_grid_parameter_sets"] = grid
     nshards = 16 if tier == "thorough" else 8
     total = 16 * 5000 if tier == "thorough" else 400
     for part in engine.run_shards(_shard, nshards, common.verif_seed(), tier=tier, n_cases=total // nshards):
